@@ -160,6 +160,12 @@ def _run_jobs_file(subcmd, jobs, tag, extra_args, cpu_limit, wall_limit):
                     begun = v["begin"]
                 else:
                     results.append(v)
+    # the files have been read: they are scratch (a violation carries its own replay data), and a thorough run writes gigabytes
+    for x in (jp, op):
+        try:
+            os.unlink(x)
+        except OSError:
+            pass
     return results, begun, status, err
 
 
@@ -190,7 +196,7 @@ def run_harness(subcmd, jobs, extra_args=(), shards=None, results_per_job=None, 
         attempt = 0
         while pos < len(chunk):
             todo = chunk[pos:]
-            cpu_limit = max(120, int(len(todo) * 0.25) + 60)
+            cpu_limit = max(120, int(len(todo) * 0.75) + 60)
             results, begun, status, err = _run_jobs_file(
                 subcmd, todo, "%s_%d_%d_%d" % (tag, os.getpid(), k, attempt), extra_args, cpu_limit, 3600)
             attempt += 1
